@@ -65,6 +65,11 @@ fn main() {
         }
         "e5c15" => e5::run_c15(seed, shard, a.u64("requests", if thorough { 6000 } else { 400 }), &mut rep),
         "e5c16" => e5::run_c16(seed, shard, a.u64("messages", if thorough { 6000 } else { 400 }), &mut rep),
+        "e4" => {
+            let family = replay.as_ref().and_then(|r| r.get("family")).and_then(|f| f.as_str()).map(|f| f.to_string()).unwrap_or_else(|| a.str("family", "c05"));
+            let only = replay.as_ref().and_then(|r| r.get("scenario")).and_then(|c| c.as_u64());
+            e4::run(&family, seed, shard, nshards, a.u64("scenarios", if thorough { 100 } else { 8 }), a.u64("parallel", 8) as usize, only, &mut rep);
+        }
         "e2" => {
             let only = replay.as_ref().map(|r| {
                 let name = r["scenario"].as_str().unwrap_or("").to_string();
